@@ -25,7 +25,10 @@ class BMSToSM(ConvertBase):
         sm.bpms = cls.cast(bms.bpms, SMBpmList, dict(offset="offset", bpm="bpm"))
 
         sm.description = unidecode(bms.version.decode("sjis"))
-        sm.chart_type = SMMapChartTypes.get_type(bms.stack().column.max() + 1)
+        # A chart without notes has no highest column (NaN): the default chart type is kept
+        keys = bms.stack().column.max() + 1
+        if keys == keys:
+            sm.chart_type = SMMapChartTypes.get_type(keys)
         sms = SMMapSet()
         sms.maps = [sm]
 
